@@ -97,6 +97,7 @@ var properties = map[string]*propSpec{
 		Title: "Evaluation is total: results are non-empty or a documented runtime error",
 		Checks: []checkSpec{
 			{Test: "TestC03_Total", Quick: 50000, Thorough: 800000, Rapid: true},
+			{Test: "TestC03_Reduced", Quick: 1, Thorough: 1},
 			{Test: "FuzzRetrieve", Fuzz: "FuzzRetrieve", FuzzSeconds: 150, ThoroughOnly: true},
 		},
 		Assumptions: assume(specAssumption, "'bounded time' is decided as: no case exceeds the 20 s hang detector"),
